@@ -17,6 +17,7 @@ import subprocess
 import sys
 import tempfile
 
+from ..oracle import canon
 from ..runner import BaseCheck, WatchdogTimeout
 from ..contracts import record_problem
 from ..gen import exprs as G
@@ -273,6 +274,7 @@ class Check(BaseCheck):
         p = self.mkparser()
         pd = self.mkparser(debug=True)
         corpus = self.valid_corpus(rnd, 300)
+        replay_later = []
         old = sys.stderr
         sys.stderr = io.StringIO()
         try:
@@ -299,6 +301,19 @@ class Check(BaseCheck):
                 if got is not None and got[1]:
                     rec.nt(f)
                 rec.cov('string_kinds', kind)
+                if kind != 'long' and j % 3 == 0:
+                    # "for every input string" also means every time: the same text again on the same parser, and once more later
+                    again = self.guarded(use, f, 8, {'kind': kind, 'repetition': 2})
+                    if got is not None and again is not None and isinstance(got[0], dict) and isinstance(again[0], dict) and canon(got[0]) != canon(again[0]) \
+                            and not any(w in f for w in ('NOW', 'TODAY', 'RAND')):
+                        rec.violation('C01/same-string-second-time-different-record', formula=f[:300], first=got[0], second=again[0])
+                    rec.count('repetitions')
+                    if len(replay_later) < 50:
+                        replay_later.append(f)
+                if j % 200 == 199:
+                    for f2 in replay_later:
+                        self.guarded(use, f2, 8, {'kind': 'replayed', 'repetition': 3})
+                    del replay_later[:]
                 if j % 97 == 0:
                     sys.stderr.seek(0)
                     sys.stderr.truncate()
